@@ -44,7 +44,10 @@ RULE = ("generated acyclic multi-package projects (globally unique definition na
         "hypothesis WF on every project; projects of the re-export shape (ShapeGen: definers, re-exporters with __all__, "
         "consumers of the old and the new names, subclasses of moved classes) are judged by the real pydoctor against the real "
         "CPython under several processing orders and searched for a counterexample to the relocated soundness statement on the "
-        "two models (`imports rsound`). Non-trivial = a dotted name, or a first component bound by an import.")
+        "two models (`imports rsound`); the shapes of the hunter round (run_hunter_shapes: re-import chains of module aliases, classes re-exported "
+        "twice, alias assignments inside nested classes that shadow a module name, re-exported packages whose sub-modules use relative "
+        "imports, aliases of inherited members taken while a base is unresolved) are generated with random variation and judged by the "
+        "direct oracle under two processing orders. Non-trivial = a dotted name, or a first component bound by an import.")
 ASSUMPTIONS = ["identity of classes/functions = their unique `ID:` docstring; of variables = their unique integer value; of modules = __name__",
                "names contain no '.' (paths = dotted strings)",
                "the source -> abstract-project translator (harness/gen/bindings.abstract_project, Python's own `ast`) is trusted: it "
@@ -79,7 +82,12 @@ PARTIAL = {"Imports.resolve_sound": "soundness is a theorem (Imports.resolve_sou
                                     "(Imports.resolve_sound_bases_counterexample, historical, over the old lookup expandLoopOld; finding "
                                     "unsound:inherited-attribute:base-import-skipped, fixed); such names are judged by the oracle and by "
                                     "the two correspondence streams. The clean-run side "
-                                    "condition is discharged (Imports.wf_run_clean). Outside WF the direct differential oracle decides.",
+                                    "condition is discharged (Imports.wf_run_clean). Outside WF the direct differential oracle decides. Alias ASSIGNMENTS (`Y = X`, "
+                                    "`Y = D.X`: astbuilder._handleAliasing) are NOT part of the abstract syntax of the two Lean models: what they bind is "
+                                    "judged by the direct oracle only (open findings unsound:nested-class:enclosing-class-scope, "
+                                    "unsound:alias-through-class:provisional-mro). The completeness clause is proved for ONE import step "
+                                    "(resolve_from_definer, resolve_via_module_alias); through longer alias chains it is false on the current tree (open "
+                                    "findings incomplete:module-alias:reimport-chain, incomplete:direct-import:moved-twice).",
            "Imports.resolve_sound_unbound": "without 'Python binds the name' the implication is false (star import of a package's "
                                             "not-yet-imported submodule: Imports.resolve_sound_unbound_counterexample) - outside the "
                                             "property's quantifier, an observation"}
@@ -962,13 +970,13 @@ def _hq(s: str) -> str:
     return s.replace("QQQ", "'" * 3)
 
 
-def hunter_projects(rng) -> List[Tuple[str, List[Unit], Dict[str, Any]]]:
-    """(shape, units, facts the diagnosis of a failure needs)"""
+def hunter_projects(rng, corpus: bool = False) -> List[Tuple[str, List[Unit], Dict[str, Any]]]:
+    """(shape, units, facts the diagnosis of a failure needs); `corpus`: the variant the hunter reported, whatever the seed"""
     def nm(prefix: str) -> str:
         return prefix + str(rng.randrange(10, 99))
     out: List[Tuple[str, List[Unit], Dict[str, Any]]] = []
     # H1a: a module alias re-imported n times
-    n = rng.choice([1, 2, 3])
+    n = 2 if corpus else rng.choice([1, 2, 3])
     pk = [nm("hp%d_" % i) for i in range(n + 1)]
     al = [nm("ha%d_" % i) for i in range(n + 1)]
     cA = nm("HA")
@@ -978,7 +986,7 @@ def hunter_projects(rng) -> List[Tuple[str, List[Unit], Dict[str, Any]]]:
         units.append(Unit(pk[i], True, "from %s import %s as %s\n" % (pk[i - 1], al[i - 1], al[i]), None))
     out.append(("alias-chain", units, {"hops": n, "scope": pk[n], "names": [al[n], al[n] + "." + cA]}))
     # H1b: a class imported directly from its defining module, re-exported k times
-    k = rng.choice([1, 2])
+    k = 2 if corpus else rng.choice([1, 2])
     p2, q2, c2 = nm("hq"), nm("hr"), nm("HB")
     units = [Unit(p2, True, "from .amod import %s\n__all__ = ['%s']\n" % (c2, c2), None),
              Unit(p2 + ".amod", False, _hq("class %s:\n    QQQID:%sQQQ\n" % (c2, c2)), p2),
@@ -987,7 +995,7 @@ def hunter_projects(rng) -> List[Tuple[str, List[Unit], Dict[str, Any]]]:
         units.append(Unit(q2, True, "from %s.bmod import %s\n__all__ = ['%s']\n" % (p2, c2, c2), None))
     out.append(("moved-twice", units, {"moves": k, "scope": p2 + ".bmod", "names": [c2]}))
     # H2: a class nested in a class that binds (or not) the name the nested body uses
-    shadow = rng.choice([True, True, False])
+    shadow = True if corpus else rng.choice([True, True, False])
     pm, cA, cB, x, y = nm("hm"), nm("HC"), nm("HD"), nm("hx"), nm("hy")
     deep = rng.choice([False, True])
     inner = "    class Inner:\n        QQQID:Inner%sQQQ\n        %s = %s\n" % (x, y, x)
@@ -1004,7 +1012,7 @@ def hunter_projects(rng) -> List[Tuple[str, List[Unit], Dict[str, Any]]]:
     out.append(("nested-class", units, {"shadow": shadow, "wrong": "ID:" + cB}))
     # H3: a sub-package re-exported by another package; its sub-modules use relative imports
     a, b, cY, cZ = nm("ha"), nm("hb"), nm("HY"), nm("HZ")
-    binds = rng.choice([True, True, False])
+    binds = True if corpus else rng.choice([True, True, False])
     star = rng.choice([False, True])
     imp = ("from %s import *\n" % b) if star else ("from %s import sub\n" % b)
     units = [Unit(a, True, imp + (("from .zmod import %s as ymod\n" % cZ) if binds else "") + "__all__ = ['sub']\n", None),
@@ -1016,7 +1024,7 @@ def hunter_projects(rng) -> List[Tuple[str, List[Unit], Dict[str, Any]]]:
     out.append(("moved-package", units, {"binds": binds, "direct": cY}))
     # H4: an alias of an inherited member, taken while a base of the class is still unresolved
     pg, cP, cQ, xx, yy = nm("hg"), nm("HP"), nm("HQ"), nm("hX"), nm("hY")
-    reimported = rng.choice([True, True, False])
+    reimported = True if corpus else rng.choice([True, True, False])
     dsrc = ("from .cmod import B1 as BB1\n" if reimported else "from .bmod import B1 as BB1\n") + \
         "from .bmod import B2\nclass D(BB1, B2):\n    QQQID:D%sQQQ\n%s = D.%s\n" % (xx, yy, xx)
     units = [Unit(pg, True, "", None),
@@ -1049,6 +1057,7 @@ def hunter_signature(shape: str, facts: Dict[str, Any], scope: str, dotted: str,
 
 def run_hunter_shapes(ctx: Ctx) -> None:
     projs = []
+    projs += hunter_projects(ctx.rng, corpus=True)
     for _ in range(6 if ctx.quick else 60):
         projs += hunter_projects(ctx.rng)
     pyres = run_cpython([{"files": files_of(u), "modules": [x.qname for x in u], "sites": False} for _, u, _ in projs])
